@@ -304,6 +304,19 @@ impl IndexerSyncService {
     }
 }
 
+#[cfg(feature = "verif-hooks")]
+impl IndexerSyncService {
+    /// verif-hooks: public wrapper of the private sync loop step (`try_loop_sync`): catch up with
+    /// the primary db, roll the indexer back until its tip is on the main chain, then append
+    /// until the node's tip is reached.
+    pub fn verif_try_loop_sync<I>(&self, indexer: I)
+    where
+        I: IndexerSync + Clone + Send + 'static,
+    {
+        self.try_loop_sync(indexer)
+    }
+}
+
 fn indexer_secondary_options() -> Options {
     let mut opts = Options::default();
     opts.create_if_missing(true);
